@@ -11,6 +11,8 @@ conclusions fail without it. Helper lemmas: Proofs/Render*.lean.
 import NGF.Proofs.RenderWF
 import NGF.Generated.RenderFacts
 import NGF.Proofs.RenderTls
+import NGF.Proofs.RenderTlsWF
+import NGF.Proofs.RenderTlsCross
 import NGF.Props.C16Pipeline
 
 namespace NGF.Props.C03Render
@@ -539,24 +541,57 @@ theorem ssl_cert_files_defined (s : ScenarioT) (order orderS : List Nat) :
   simp only [Option.some.injEq] at hid
   rw [hid]
 
-/-
-NOT PROVED in this round (statements kept; both are executed on every scenario of the TLS render tie, evidence
-`render_tls_tie`):
-
-  theorem ssl_listen_server_name_distinct (s : ScenarioT) (order orderS : List Nat) (hf : inFragmentT s = true)
+/-- no (listen address, server_name) pair occurs twice among the SSL server blocks, the SSL default servers included —
+under `noDupSsl`, the explicit hypothesis that excludes the registered finding C03:duplicate-ssl-server-from-listener-404
+(on no port two SSL servers — route servers and the 404 servers of listeners — have the same name; witness `sDupSsl` below) -/
+theorem ssl_listen_server_name_distinct (s : ScenarioT) (order orderS : List Nat) (hf : inFragment (httpsPart s) = true)
     (hd : noDupSsl (genTR s order orderS) = true) :
-    ((sslDirs (genTR s order orderS)).flatMap srvPairs).Nodup
-  -- missing: `srvPairs (renderSsl sv) = pairsOf (sv.port, sv.name)` (the directive view of `renderSsl`, as
-  -- `listens_of_renderServer` for `renderServer`), names of SSL servers are non-empty (from `hostsOf_name_ne_nil` on
-  -- `httpsPart s` and `serverName`), then `pairs_nodup`'s argument verbatim. `noDupSsl` is the explicit hypothesis that
-  -- excludes the registered finding C03:duplicate-ssl-server-from-listener-404; witness below (`sDupSsl`).
+    ((sslDirs (genTR s order orderS)).flatMap srvPairs).Nodup :=
+  sslPairs_nodup (goodSslNames_genTR order orderS hf hd)
+
+/-- clause `duplicate-listen-server-name` for the WHOLE of `renderT`: among all server blocks — HTTP servers, SSL servers,
+default servers of both kinds, the two unix-socket servers — no (listen address, server_name) pair occurs twice. Uses that
+an HTTP and an HTTPS listener never serve one port (`PipelineTls.conflicted`: `ports_disjoint`). -/
+theorem renderT_listen_server_name_distinct (s : ScenarioT) (order orderS : List Nat)
+    (hfH : inFragment (httpPart s) = true) (hsH : namesSafe (httpPart s) = true) (hpH : portsOK (httpPart s) = true)
+    (hfS : inFragment (httpsPart s) = true) (hd : noDupSsl (genTR s order orderS) = true) :
+    ((blocksNamed "server" (renderT (genTR s order orderS))).flatMap srvPairs).Nodup :=
+  renderT_pairs_nodup order orderS (goodConf_genR order hfH hsH hpH) (goodSslNames_genTR order orderS hfS hd)
+
+/-- `_partial` of `renderT_wellformed`, SSL half: every SSL server block of `renderT (genTR s …)` has pairwise distinct
+location keys (external, internal, default root — clause `duplicate-location`) and only `listen` directives that NGINX
+accepts (`<p> ssl`, `[::]:<p> ssl`, clause `bad-listen`); so have the SSL default servers (`… ssl default_server`) -/
+theorem renderT_ssl_servers_wellformed_partial (s : ScenarioT) (order orderS : List Nat) (hf : inFragment (httpsPart s) = true)
+    (hp : ∀ sv ∈ (genTR s order orderS).ssl, 1 ≤ sv.port ∧ sv.port ≤ 65535)
+    (hp' : ∀ d ∈ (genTR s order orderS).sslDefaults, 1 ≤ d.1 ∧ d.1 ≤ 65535) :
+    (∀ sv ∈ (genTR s order orderS).ssl,
+      ((blocksNamed "location" (body (renderSsl sv))).map locKeyL).Nodup ∧
+      (named "listen" (body (renderSsl sv))).flatMap listenIssue = []) ∧
+    (∀ d ∈ (genTR s order orderS).sslDefaults, (named "listen" (body (renderSslDefault d.1))).flatMap listenIssue = []) := by
+  refine ⟨fun sv hsv => ⟨?_, ?_⟩, fun d hd => ?_⟩
+  · rw [locs_of_renderSsl]
+    exact sslKeys_nodup (goodSslServers_genTR order orderS hf sv hsv)
+  · exact listenIssues_renderSsl sv (hp sv hsv).1 (hp sv hsv).2
+  · exact listenIssues_sslDefault d.1 (hp' d hd).1 (hp' d hd).2
+
+/-
+NOT PROVED (statement kept; executed on every scenario of the TLS render tie, evidence `render_tls_tie`):
 
   theorem renderT_wellformed (s : ScenarioT) (order orderS : List Nat) (hf : inFragmentT s = true)
-    (hs : namesSafe (allPart s) = true) (hp : portsOKT s = true) (hd : noDupSsl (genTR s order orderS) = true) :
-    wfDirs (renderT (genTR s order orderS)) (matchKeysOfT (genTR s order orderS)) = []
-  -- missing: the `GoodConf` argument of Proofs/RenderWF for the SSL half: `renderRuleK (sslKey sid)` in place of
-  -- `renderRule sid` (keys `SSL_<i>_<j>` vs `<i>_<j>` are disjoint: 'S' is not a digit), `listenWhy` of `<p> ssl`
-  -- / `[::]:<p> ssl [default_server]`, and the BackendGroups of both halves (`dedupKey (cH.groups ++ cS.groups)`).
+      (hs : namesSafe (allPart s) = true) (hp : portsOKT s = true) (hd : noDupSsl (genTR s order orderS) = true) :
+      wfDirs (renderT (genTR s order orderS)) (matchKeysOfT (genTR s order orderS)) = []
+
+  Proved pieces: the HTTP half alone (`renderT_wellformed_partial`), and of the SSL half the clauses
+  duplicate-listen-server-name (`ssl_listen_server_name_distinct`; for ALL servers of renderT:
+  `renderT_listen_server_name_distinct`), duplicate-location and bad-listen
+  (`renderT_ssl_servers_wellformed_partial`), certificate files (`ssl_cert_files_defined`).
+  Missing: (a) the clauses with cross references for the SSL half — `keyIssues` with the keys `SSL_<i>_<j>` (needs
+  `sidT` injective = `sidOf_inj` on the SSL names under `noDupSsl`, disjointness from the HTTP keys by the prefix, and the
+  generalisation of `keyIssues_server` to a key map that CONTAINS the server's entries) and `passIssues` (generalisation
+  of `passIssues_good` to the split variables of `dedupKey (cH.groups ++ cS.groups)`, which needs `src_determines_action`
+  across the two projections); (b) of the cross-half facts (an HTTP and an HTTPS listener never share a port: `ports_disjoint`, proved) the
+  consequence for the `default_server` addresses (the one for (listen, server_name) pairs is proved);
+  (c) the assembly as in `wf_of_good`.
 -/
 
 /-- `_partial` of `renderT_wellformed`: the plain-HTTP half of `renderT` is `render (genR (httpPart s) order)` — the servers C16
